@@ -315,3 +315,13 @@ func (p *Program) RootsInScope() []*packages.Package {
 	}
 	return out
 }
+
+// InScopePkg reports whether the package path is one of the analysed root packages.
+func (p *Program) InScopePkg(path string) bool {
+	for _, r := range p.Roots {
+		if r.PkgPath == path && !p.ScopeOut[path] {
+			return true
+		}
+	}
+	return false
+}
